@@ -281,6 +281,12 @@ int ibz_rand_interval_minm_m(ibz_t *rand, int64_t m);
  */
 int ibz_bitsize(const ibz_t *a);
 
+/** @brief 2-adic valuation of a
+ *
+ *  @returns the largest e such that 2^e divides a, 0 if a is 0
+ */
+int ibz_two_adic(const ibz_t *a);
+
 /* etc....*/
 
 /** @}
